@@ -284,7 +284,21 @@ class SBytes:
 
     def split(self, sep=None, maxsplit=-1):
         if sep is None:
-            raise Unsupported("whitespace split of symbolic bytes")
+            # bytes.split(): runs of ASCII whitespace separate, no empty pieces (forks on undecided membership)
+            if maxsplit >= 0:
+                raise Unsupported("whitespace split with maxsplit")
+            ws = list(b" \t\n\r\x0b\x0c")
+            parts, cur = [], []
+            for x in self.b:
+                if sym.elem_in(x if isinstance(x, int) else SInt(x, 8), ws):
+                    if cur:
+                        parts.append(_norm(SBytes._norm_list(cur)))
+                        cur = []
+                else:
+                    cur.append(x)
+            if cur:
+                parts.append(_norm(SBytes._norm_list(cur)))
+            return parts
         sep = bytes(sep)
         if len(sep) != 1:
             raise Unsupported("multi-byte separator")
